@@ -2,3 +2,5 @@ import WrglModel.Props.C20
 #print axioms Wrgl.C20_membership
 #print axioms Wrgl.C20_flush_inv
 #print axioms Wrgl.C20_has_exact
+#print axioms Wrgl.sortedHashes_eq_TR
+#print axioms Wrgl.fanoutOk_eq_C
